@@ -122,6 +122,18 @@ def _jobs(tier, seed):
             j["allcombos"] = True
         if i % 9 == 4 and not j.get("list"):
             j["debug"] = True
+    # Grammar.from_string(..., ignore_case=True): the tokens are the text of the INPUT, in its own case (finding D38: a string
+    # terminal's node carried the grammar's spelling, so the leaves no longer spelled the input)
+    rng = random.Random(31344)
+    icterms = [("kb", "str", "begin"), ("ke", "str", "End"), ("id", "re", "[a-z]")]
+    for g in fam[3:: 9] + [{"prods": [("S", ("kb", "L", "ke")), ("L", ("L", "id")), ("L", ())], "terms": icterms},
+                           {"prods": [("S", ("S", "id")), ("S", ("kb",)), ("S", ("ke",))], "terms": icterms}]:
+        words = gen.directed_inputs(g, rng, n_all=2, maxlen=5, n_sent=8, n_mut=4)
+        inputs = set()
+        for w in words:
+            t = gen.render(w, rng.choice(["none", "spaces"]) if g["terms"] is not icterms else "spaces")
+            inputs |= {t, t.upper(), "".join(c.upper() if rng.random() < 0.5 else c.lower() for c in t)}
+        jobs.append({"g": g, "inputs": sorted(inputs), "origin": "det", "consume": True, "icase": True})
     rng = random.Random(2000003 * (seed + 1))
     k = 0
     while k < p["nrand"]:
@@ -211,6 +223,9 @@ def worker(job):
         text_or_grammar = grammar0
         ws = None
         extra = {"ws": None}
+    elif job.get("icase"):
+        with real.quiet():
+            text_or_grammar = real.Grammar.from_string(text, ignore_case=True)
     else:
         text_or_grammar = text
     for tables in ("LALR", "SLR"):
@@ -246,7 +261,7 @@ def worker(job):
                 if dglr is not None:
                     glrdbg = _run_glr(real, dglr, w)
             out.append({
-                "name": "%s [%s,ps=%d,pse=%d%s%s] @ %r" % (gen.gname(g), tables, ps, pse, "" if consume else ",prefix", (",list-input" + ("(last terminal a string)" if job.get("strlast") else "") if job.get("list") else "") + (",LAYOUT-rule" if job.get("extra") else ""), w),
+                "name": "%s [%s,ps=%d,pse=%d%s%s] @ %r" % (gen.gname(g), tables, ps, pse, "" if consume else ",prefix", (",list-input" + ("(last terminal a string)" if job.get("strlast") else "") if job.get("list") else "") + (",LAYOUT-rule" if job.get("extra") else "") + (",ignore_case" if job.get("icase") else ""), w),
                 "listinput": bool(job.get("list")), "overlap": bool(job.get("overlap")),
                 "gtext": text, "tables": tables, "ps": ps, "pse": pse, "prio": False, "consume": consume, "origin": job["origin"],
                 "built": parser is not None, "build_err": err or "", "prods": prods, "terms": terms, "tbl": tbl,
@@ -318,7 +333,8 @@ def judge_replay(rc):
     gen.gtext = lambda _g, extra="": rc["gtext"]
     gen.gname = lambda _g: rc["name"].split(" [")[0]
     try:
-        cases = worker({"g": {"prods": [], "terms": []}, "inputs": [rc["input"]], "origin": "replay", "consume": rc["consume"]})
+        cases = worker({"g": {"prods": [], "terms": []}, "inputs": [rc["input"]], "origin": "replay", "consume": rc["consume"],
+                        "icase": ",ignore_case" in rc["name"]})
     finally:
         gen.gtext, gen.gname = saved
     cases = [c for c in cases if (c["tables"], c["ps"], c["pse"]) == (rc["tables"], rc["ps"], rc["pse"])]
